@@ -131,8 +131,8 @@ def _expect(cmd, a, version, xmode):
     legacy8 = version <= 8
     if cmd == 'setpoint':
         roll, pitch, yawrate, thrust = a
-        if not (0 <= thrust <= 0xFFFF):
-            return ('raise',)
+        if not (0 <= thrust <= 0xFFFF) or thrust != int(thrust):
+            return ('raise',)       # outside the 16-bit field, or not a whole number: cannot be represented
         if xmode:
             return ('pk', 3, 0, [('f', (roll, pitch), 'xmode'), _f(yawrate), ('H', thrust, 'i')])
         return ('pk', 3, 0, [_f(roll), _f(-pitch), _f(yawrate), ('H', thrust, 'i')])
@@ -490,7 +490,8 @@ _fx = st.one_of(st.floats(-32.7, 32.7, allow_nan=False), st.floats(-40, 40, allo
 _fx_in = st.one_of(st.floats(-32.7, 32.7, allow_nan=False), st.integers(-32767, 32767).map(lambda k: k / 1000.0))
 _quat = st.lists(st.one_of(st.floats(-1, 1, allow_nan=False), st.sampled_from([0.0, 1.0, -1.0, 0.5, -0.5])), min_size=4, max_size=4) \
     .filter(lambda q: sum(v * v for v in q) > 1e-6)
-_thrust = st.one_of(st.integers(0, 65535), st.sampled_from([0, 65535, 65536, -1, 100000, 10001, 60000]), st.integers(-70000, 140000))
+_thrust = st.one_of(st.integers(0, 65535), st.sampled_from([0, 65535, 65536, -1, 100000, 10001, 60000]), st.integers(-70000, 140000),
+                    st.sampled_from([-0.5, -0.999, 65535.5, 65535.001, 100.5, 0.25]))
 _bs = st.lists(st.one_of(st.integers(0, 15), st.integers(-2, 17)), max_size=6, unique=True)
 
 
